@@ -674,6 +674,7 @@ func (t WriteType) IsValid() bool {
 	case WriteTypeBatchLog:
 	case WriteTypeView:
 	case WriteTypeCdc:
+	case WriteTypeCas:
 	default:
 		return false
 	}
